@@ -105,3 +105,19 @@ Theorem C19_desc_cmp_total_order_partial : forall kf kx, total_order kf -> total
   forall a b, exists c, desc_cmp cmp_iter kf kx a b = EqOrdModel.Ok c /\ (c = Eq <-> a = b).
 Proof. exact desc_cmp_spec. Qed.
 Print Assumptions C19_desc_cmp_total_order_partial.
+
+(* ---- the spend-info cache of Tr is run-time state that ==, cmp do not read: a value is (structure, cache),
+        and the answers depend on the structures only, for every history (fresh / warmed / clone of warmed) *)
+Theorem C19_desc_eq_history_independent : forall meq a b c c',
+  cdesc_eq meq (mkCD a c) (mkCD b c') = desc_eq meq a b.
+Proof. exact cdesc_eq_history_independent. Qed.
+Print Assumptions C19_desc_eq_history_independent.
+
+Theorem C19_desc_cmp_history_independent : forall mcmp kf kx a b c c',
+  cdesc_cmp mcmp kf kx (mkCD a c) (mkCD b c') = desc_cmp mcmp kf kx a b.
+Proof. exact cdesc_cmp_history_independent. Qed.
+Print Assumptions C19_desc_cmp_history_independent.
+
+Theorem C19_desc_eq_structural_any_history : forall x y, cdesc_eq eq_iter x y = true <-> cd_desc x = cd_desc y.
+Proof. exact cdesc_eq_structural. Qed.
+Print Assumptions C19_desc_eq_structural_any_history.
